@@ -7,6 +7,7 @@ Operations (lists, so that cases shrink and replay as plain JSON):
   ['acquire', side, entry_k, host_k]      kernel ACQUIRE (C-encoded bytes) for protect entry entry_k
   ['expire', side, child_k, hard]         kernel EXPIRE for a CHILD_SA known to both ends (see Sim.shared_children)
   ['expire_any', side, child_k, hard]     kernel EXPIRE for any CHILD_SA tracked at `side`
+  ['expire_spi', side, spihex, hard]      kernel EXPIRE for an arbitrary SPI
   ['rekey_ike', side, sa_k] ['del_ike', side, sa_k] ['dpd', side, sa_k]     timer triggers (deadline moved, sweep run)
   ['deliver', i] ['drop', i] ['dup', i]   act on in-flight datagram i (mod number in flight)
   ['old', k]                              deliver again the k-th datagram ever sent (stale replay of authentic traffic)
@@ -17,6 +18,7 @@ Operations (lists, so that cases shrink and replay as plain JSON):
   ['sfault', side, nth, kind]             the nth sendto from now raises OSError / gaierror
   ['inject', side, src, hex]              raw datagram from src ('peer' | 'unknown' | address) to `side`
   ['xfrm_raw', side, hex]                 raw bytes on the XFRM socket
+  ['hdr', i, kind, k]                     copy of in-flight datagram i with its header SPIs / flags rewritten (unauthentic)
   ['rewrite', i, kind, arg]               keyed man-in-the-middle / differently-behaving peer: in-flight protected datagram i
                                           is decrypted with the reference keys, its payload list edited (EDITS below),
                                           re-encrypted and re-MACed correctly, and delivered instead of the original
@@ -70,6 +72,16 @@ class Sim:
         self.a = self.w.add('a', [cfg['addr_a']], ca)
         self.b = self.w.add('b', [cfg['addr_b']], cb)
         self.eps = {'a': self.a, 'b': self.b}
+        if third:
+            # a third host c with its own connection to a (transport mode only: the protected hosts are the endpoints)
+            self.cfg_c = third
+            cac, cc = gen.build(third)
+            ca2 = dict(ca)
+            ca2['conn_c'] = cac['conn']
+            self.a.conf_dict = ca2
+            self.a.restart()
+            self.c = self.w.add('c', [third['addr_b']], cc)
+            self.eps['c'] = self.c
         self.fails = []
         self.monitors = list(monitors)
         self.trace = []           # (op, summary) for diagnostics
@@ -88,6 +100,9 @@ class Sim:
 
     def other(self, side):
         return 'b' if side == 'a' else 'a'
+
+    def peers_of(self, side):
+        return [n for n in self.eps if n != side] if side == 'a' else ['a']
 
     def sas(self, side, pred=None):
         return [s for s in self.eps[side].sas if pred is None or pred(s)]
@@ -162,8 +177,13 @@ class Sim:
             ep = self.eps[side]
             if not ep.up:
                 return
-            idx = op[2] % len(self.cfg['protect'])
-            args = gen.acquire_args(self.cfg, idx, side=side, host_s=op[3] * 13 + 1, host_d=op[3] * 7 + 2)
+            cfg_ = self.cfg
+            aside = side
+            if side == 'c' or (len(op) > 4 and op[4] == 'c' and 'c' in self.eps):
+                cfg_ = self.cfg_c
+                aside = 'b' if side == 'c' else 'a'
+            idx = op[2] % len(cfg_['protect'])
+            args = gen.acquire_args(cfg_, idx, side=aside, host_s=op[3] * 13 + 1, host_d=op[3] * 7 + 2)
             data = w.acquire_bytes(ep, args['peer_addr'], ep.addrs[0], args['index'], args['saddr'], args['daddr'],
                                    args['sport'], args['dport'], args['proto'])
             self.event('acquire', ep, lambda: ep.step(xfrm=data), op=op, info={'entry': idx})
@@ -184,6 +204,13 @@ class Sim:
             data = w.expire_bytes(spi, op[3])
             self.event('expire', ep, lambda: ep.step(xfrm=data), op=op,
                        info={'sa': sa, 'child': c, 'hard': bool(op[3]), 'spi': spi})
+        elif k == 'expire_spi':
+            ep = self.eps[op[1]]
+            if ep.up:
+                spi = bytes.fromhex(op[2])
+                data = w.expire_bytes(spi, op[3])
+                self.event('expire', ep, lambda: ep.step(xfrm=data), op=op,
+                           info={'sa': None, 'child': None, 'hard': bool(op[3]), 'spi': spi})
         elif k in ('rekey_ike', 'del_ike', 'dpd'):
             side = op[1]
             ep = self.eps[side]
@@ -247,6 +274,43 @@ class Sim:
             w.inflight.remove(d)
             self.count('rewrite:' + op[2])
             self.deliver(nd, keep=True, op=op, kind='rewrite')
+        elif k == 'hdr':
+            if not w.inflight:
+                self.count('noop')
+                return
+            d = w.inflight[op[1] % len(w.inflight)]
+            ep = w.by_addr.get(d.dst)
+            if ep is None or not ep.up or len(d.data) < 28:
+                return
+            data = bytearray(d.data)
+            kind = op[2]
+            if kind == 'swap_spis':
+                data[0:8], data[8:16] = d.data[8:16], d.data[0:8]
+            elif kind == 'zero_spi_i':
+                data[0:8] = bytes(8)
+            elif kind == 'zero_spi_r':
+                data[8:16] = bytes(8)
+            elif kind == 'rand_spi_i':
+                data[0:8] = bytes((x + 1 + op[3]) & 0xFF for x in d.data[0:8])
+            elif kind == 'rand_spi_r':
+                data[8:16] = bytes((x + 1 + op[3]) & 0xFF for x in d.data[8:16])
+            elif kind == 'flip_i':
+                data[19] ^= 0x08
+            elif kind == 'flip_r':
+                data[19] ^= 0x20
+            elif kind == 'other_sa':
+                others = [s_ for s_ in ep.sas]
+                if not others:
+                    return
+                o = others[op[3] % len(others)]
+                data[0:8], data[8:16] = bytes(o.spi_i).ljust(8, b'\0')[:8], bytes(o.spi_r).ljust(8, b'\0')[:8]
+            else:
+                raise ValueError(kind)
+            if bytes(data) == d.data:
+                return
+            nd = WD.Dgram(-3, d.src, d.dst, bytes(data), w.clock.t, 'adversary')
+            self.count('hdr:' + kind)
+            self.event('hdr', ep, lambda: ep.step(dgram=(nd.dst, nd.src, nd.data)), dgram=nd, op=op, info={'kind': kind})
         elif k == 'xfrm_raw':
             ep = self.eps[op[1]]
             if ep.up:
@@ -456,6 +520,10 @@ class TableExact(Monitor):
                 if s.state == State.DELETED:
                     sim.fail('table-keeps-deleted', f'endpoint {ep.name} still lists an IKE_SA in state DELETED after '
                                                     f'{describe(ev)}')
+                if s.state == State.INITIAL:
+                    # INITIAL is transient inside one event (an IKE_SA_INIT request or an ACQUIRE moves it on or removes it)
+                    sim.fail('table-holds-initial', f'endpoint {ep.name} lists an IKE_SA in state INITIAL (never negotiated '
+                                                    f'with anybody) after {describe(ev)}')
 
 
 def describe(ev):
